@@ -168,9 +168,13 @@ def run_case(c):
             if c["fc"] != "none":
                 ph.force_constants = np.array(fcm if c["fc"] == "full" else fcm[p2s], dtype="double", order="C")
             if c["nac"]:
-                nacp = nacgen.random_nac(ph, rng, method="wang", factor=units["nac_factor"] if units["nac_factor"] else 1.0)
-                nacp.pop("method")
+                # the NAC method is part of the saved calculation: Wang | Gonze-Lee | not given (documented default Gonze-Lee)
+                nmeth = [None, "wang", "gonze"][int(rng.integers(3))]
+                nacp = nacgen.random_nac(ph, rng, method=nmeth or "wang", factor=units["nac_factor"] if units["nac_factor"] else 1.0)
+                if nmeth is None:
+                    nacp.pop("method")
                 ph.nac_params = nacp
+                obs["nac_method_%s" % nmeth] = 1
             keys = ["force_sets", "displacements", "force_constants", "born_effective_charge", "dielectric_constant"]
             settings = {k: bool((c["settings_bits"] >> i) & 1) for i, k in enumerate(keys)}
             if c["fc"] != "none" and rng.integers(2):
@@ -308,6 +312,9 @@ def run_case(c):
                                                                                                      np.abs(np.array(n1["dielectric"]) - np.array(n2["dielectric"])).max()))
                     if abs(n1["factor"] - n2.get("factor", np.nan)) > 1e-6 * abs(n1["factor"]):
                         b("nac_mismatch", "NAC unit factor %.10g reloaded as %r" % (n1["factor"], n2.get("factor")))
+                    m1, m2 = (n1.get("method") or "gonze").lower(), (n2.get("method") or "gonze").lower()
+                    if m1 != m2:
+                        b("nac_mismatch", "NAC method '%s' reloaded as '%s' (the file says %r)" % (m1, m2, re.findall(r"method:\s*\"?(\w+)", text)[:1]), nac_method=m1)
                 obs["n_nac_compared"] = 1
             # phonons: only when the file determines the force constants (FC block, or type-1 forces)
             determines = has_fc_in_file or (has_forces_in_file and c["dataset"] == "type1" and settings["displacements"])
